@@ -1,24 +1,26 @@
-(* C18: one deadline for the async client; the sync client re-arms its timeout on every skipped datagram. *)
+(* C18: one deadline per call for both clients; the re-arming loop of the pinned commit did not have one. *)
 From GS Require Import Model.Base Model.Timing.
 From Coq Require Import ZifyBool Sorted.
 
-Lemma async_wait_le : forall arr D now, now <= D -> fst (async_wait D now arr) <= D.
+Lemma deadline_wait_le : forall arr D now, now <= D -> fst (deadline_wait D now arr) <= D.
 Proof.
-  induction arr as [|[t ok] r IH]; intros D now H; cbn [async_wait fst]; [lia|].
+  induction arr as [|[t ok] r IH]; intros D now H; cbn [deadline_wait fst]; [lia|].
   destruct (Z.max t now <=? D) eqn:E; [|cbn; lia].
   destruct ok; [cbn; lia|]. apply IH. lia.
 Qed.
 
-Theorem async_deadline : forall T t0 arr, 0 <= T -> fst (async_wait (t0 + T) t0 arr) <= t0 + T.
-Proof. intros. apply async_wait_le. lia. Qed.
+Theorem async_deadline : forall T t0 arr, 0 <= T -> fst (async_wait T t0 arr) <= t0 + T.
+Proof. intros. apply deadline_wait_le. lia. Qed.
+Theorem sync_deadline : forall T t0 arr, 0 <= T -> fst (sync_wait T t0 arr) <= t0 + T.
+Proof. intros. apply deadline_wait_le. lia. Qed.
 
 (* a matching reply that arrives by the deadline after only non-matching datagrams is delivered, at its arrival time *)
-Theorem async_delivers : forall pre D now t post,
+Theorem deadline_delivers : forall pre D now t post,
   Forall (fun a => snd a = false) pre -> Forall (fun a => now <= fst a <= t) pre -> now <= t <= D ->
   StronglySorted (fun a b => fst a <= fst b) (pre ++ [(t, true)]) ->
-  async_wait D now (pre ++ (t, true) :: post) = (t, true).
+  deadline_wait D now (pre ++ (t, true) :: post) = (t, true).
 Proof.
-  induction pre as [|[u ok] pre IH]; intros D now t post Hf Hr Ht Hs; cbn [app async_wait].
+  induction pre as [|[u ok] pre IH]; intros D now t post Hf Hr Ht Hs; cbn [app deadline_wait].
   - assert (Z.max t now = t) as -> by lia. assert (t <=? D = true) as -> by lia. reflexivity.
   - inversion Hf as [|? ? Hok Hf']; subst. cbn in Hok; subst ok.
     inversion Hr as [|? ? Hu Hr']; subst. cbn [fst] in Hu.
@@ -31,48 +33,55 @@ Proof.
 Qed.
 
 (* the sync loop returns no later than one timeout after the last datagram it read *)
-Lemma sync_wait_bound : forall arr T now, 0 <= T ->
-  fst (sync_wait T now arr) <= now + T * (Z.of_nat (length arr) + 1).
+Lemma rearming_wait_bound : forall arr T now, 0 <= T ->
+  fst (rearming_wait T now arr) <= now + T * (Z.of_nat (length arr) + 1).
 Proof.
-  induction arr as [|[t ok] r IH]; intros T now HT; cbn [sync_wait length]; [cbn; lia|].
+  induction arr as [|[t ok] r IH]; intros T now HT; cbn [rearming_wait length]; [cbn; lia|].
   destruct (Z.max t now <=? now + T) eqn:E; [|cbn [fst]; nia].
   destruct ok; [cbn [fst]; nia|].
   specialize (IH T (Z.max t now) HT). nia.
 Qed.
 
-(* without stray datagrams the sync client keeps its deadline *)
-Theorem sync_deadline_without_strays : forall arr T t0, 0 <= T ->
-  Forall (fun a => snd a = true) arr -> fst (sync_wait T t0 arr) <= t0 + T.
+(* without stray datagrams the re-arming loop kept its deadline *)
+Theorem rearming_deadline_without_strays : forall arr T t0, 0 <= T ->
+  Forall (fun a => snd a = true) arr -> fst (rearming_wait T t0 arr) <= t0 + T.
 Proof.
-  intros arr T t0 HT H. destruct arr as [|[t ok] r]; cbn [sync_wait]; [cbn; lia|].
+  intros arr T t0 HT H. destruct arr as [|[t ok] r]; cbn [rearming_wait]; [cbn; lia|].
   inversion H as [|? ? Hok _]; subst. cbn in Hok; subst ok.
   destruct (Z.max t t0 <=? t0 + T) eqn:E; cbn [fst]; lia.
 Qed.
 
 (* ... but every stray re-arms the timeout: k strays spaced gap <= T apart keep the call waiting until
    t0 + k*gap + T, far beyond the session timeout (the known finding of C18) *)
-Lemma sync_wait_strays : forall k T now gap, 0 <= gap <= T ->
-  sync_wait T now (strays k now gap) = (now + Z.of_nat k * gap + T, false).
+Lemma rearming_wait_strays : forall k T now gap, 0 <= gap <= T ->
+  rearming_wait T now (strays k now gap) = (now + Z.of_nat k * gap + T, false).
 Proof.
-  induction k as [|k IH]; intros T now gap H; cbn [strays sync_wait].
+  induction k as [|k IH]; intros T now gap H; cbn [strays rearming_wait].
   - f_equal. lia.
   - assert (Z.max (now + gap) now = now + gap) as -> by lia.
     assert (now + gap <=? now + T = true) as -> by lia.
     rewrite IH by lia. f_equal. lia.
 Qed.
 
-Theorem sync_deadline_refuted : forall T t0 (k : nat), 0 < T ->
-  exists arr, Forall (fun a => snd a = false) arr /\ fst (sync_wait T t0 arr) = t0 + Z.of_nat k * T + T.
+Theorem rearming_deadline_refuted : forall T t0 (k : nat), 0 < T ->
+  exists arr, Forall (fun a => snd a = false) arr /\ fst (rearming_wait T t0 arr) = t0 + Z.of_nat k * T + T.
 Proof.
   intros T t0 k HT. exists (strays k t0 T). split.
   - generalize t0. induction k as [|k IH]; intros u; cbn [strays]; constructor; [reflexivity|apply IH].
-  - rewrite sync_wait_strays by lia. reflexivity.
+  - rewrite rearming_wait_strays by lia. reflexivity.
 Qed.
 
 (* the same schedule against the async client: it returns at its single deadline *)
-Theorem async_with_strays : forall k T t0 gap, 0 <= gap -> 0 <= T ->
-  fst (async_wait (t0 + T) t0 (strays k t0 gap)) <= t0 + T.
-Proof. intros. apply async_wait_le. lia. Qed.
+Theorem deadline_with_strays : forall k T t0 gap, 0 <= gap -> 0 <= T ->
+  fst (sync_wait T t0 (strays k t0 gap)) <= t0 + T /\ fst (async_wait T t0 (strays k t0 gap)) <= t0 + T.
+Proof. intros. split; apply deadline_wait_le; lia. Qed.
 
-Example sync_refuted_example : sync_wait 400 0 (strays 6 0 250) = (1900, false).
-Proof. reflexivity. Qed.
+(* a matching reply that arrives by the deadline after only non-matching datagrams is delivered (both clients) *)
+Theorem sync_delivers : forall pre T t0 t post,
+  Forall (fun a => snd a = false) pre -> Forall (fun a => t0 <= fst a <= t) pre -> t0 <= t <= t0 + T ->
+  StronglySorted (fun a b => fst a <= fst b) (pre ++ [(t, true)]) ->
+  sync_wait T t0 (pre ++ (t, true) :: post) = (t, true) /\ async_wait T t0 (pre ++ (t, true) :: post) = (t, true).
+Proof. intros. split; apply deadline_delivers; assumption. Qed.
+
+Example rearming_refuted_example : rearming_wait 400 0 (strays 6 0 250) = (1900, false) /\ sync_wait 400 0 (strays 6 0 250) = (400, false).
+Proof. split; reflexivity. Qed.
